@@ -61,6 +61,50 @@ class Lin:
         return 'Lin(%s)' % ', '.join('%s:%s' % (k, (hex(v) if abs(v) > 10**6 else v)) for k, v in sorted(self.t.items()))
 
 
+class Sum:
+    """Sum of monomials with integer coefficients: dict frozenset(Lin.t.items()) -> int.
+    Closed under addition and under multiplication by a monomial; the product of two
+    multi-term sums is *not* formed (the interpreter interns both as named atoms)."""
+    __slots__ = ('t',)
+
+    def __init__(self, t=None):
+        self.t = {k: v for k, v in (t or {}).items() if v != 0}
+
+    @staticmethod
+    def of(lin, coef=1):
+        return Sum({frozenset(lin.t.items()): coef})
+
+    def add(self, o, sign=1):
+        d = dict(self.t)
+        for k, v in o.t.items():
+            d[k] = d.get(k, 0) + sign * v
+        return Sum(d)
+
+    def mul_mono(self, lin):
+        out = {}
+        for k, v in self.t.items():
+            m = Lin(dict(k)).add(lin)
+            kk = frozenset(m.t.items())
+            out[kk] = out.get(kk, 0) + v
+        return Sum(out)
+
+    def scale(self, n):
+        return Sum({k: v * n for k, v in self.t.items()})
+
+    def single(self):
+        if len(self.t) == 1:
+            (k, v), = self.t.items()
+            if v == 1:
+                return Lin(dict(k))
+        return None
+
+    def __eq__(self, o):
+        return isinstance(o, Sum) and self.t == o.t
+
+    def __repr__(self):
+        return 'Sum(%d terms)' % len(self.t)
+
+
 class Int:
     __slots__ = ('v', 'bits')
 
@@ -441,6 +485,32 @@ def limbs_int(a):
     return None
 
 
+def _fold_offsets(proj, store):
+    """Fold slice-view offsets ['off', k] into the following index projection."""
+    if not any(e[0] == 'off' for e in proj):
+        return proj
+    out = []
+    pending = 0
+    for e in proj:
+        if e[0] == 'off':
+            pending += e[1]
+        elif e[0] == 'ci' and not e[3] and pending:
+            out.append(['ci', e[1] + pending, 0, False])
+            pending = 0
+        elif e[0] == 'i' and pending:
+            iv = store.get(e[1])
+            if isinstance(iv, Int):
+                out.append(['ci', iv.v + pending, 0, False])
+            else:
+                out.append(e)
+            pending = 0
+        elif e[0] == 'deref':
+            out.append(e)
+        else:
+            out.append(e)
+    return out
+
+
 class Frame:
     def __init__(self, interp, body, args):
         self.interp = interp
@@ -486,6 +556,7 @@ class Frame:
         return self._project(self.store[root], proj)
 
     def _project(self, v, proj):
+        proj = _fold_offsets(proj, self.store)
         for e in proj:
             if isinstance(v, Opt) and e[0] == 'dc':
                 continue
@@ -538,6 +609,7 @@ class Frame:
     def _update(self, cur, proj, val):
         if not proj:
             return val
+        proj = _fold_offsets(proj, self.store)
         e = proj[0]
         if e[0] == 'deref':
             return self._update(cur, proj[1:], val)
@@ -623,6 +695,25 @@ class Path:
         self.labels = []     # (label, taken) for every forked branch
         self.events = []     # free-form events recorded by transfer functions
 
+    def decided(self, label):
+        """Truth value already chosen on this path for a boolean label (or None)."""
+        neg = False
+        x = label
+        while isinstance(x, tuple) and x and x[0] == 'not':
+            neg = not neg
+            x = x[1]
+        key = repr(x)
+        for lab, v in self.labels:
+            n2 = False
+            y = lab
+            while isinstance(y, tuple) and y and y[0] == 'not':
+                n2 = not n2
+                y = y[1]
+            if repr(y) == key and isinstance(v, int) or (repr(y) == key and v == 'otherwise'):
+                truth = (v != 0) != n2
+                return truth != neg
+        return None
+
 
 class Interp:
     """Configurable abstract interpreter.
@@ -645,6 +736,8 @@ class Interp:
         self.frob_q = frob_q        # integer q meaning frobenius_map(c)(x) = x^(q^c)
         self.extra_transfer = extra_transfer
         self.stop_on_unknown_switch = stop_on_unknown_switch
+        self.sums = False          # keep field additions as sums of monomials (Sum) instead of opaque atoms
+        self.interned = []         # multi-term sums that had to be multiplied: named atoms S#k
         self.block_hook = None     # (fr, bb, pth) -> new bb | None : region summaries
         self.switch_hook = None    # (fr, term, dv, pth) -> target bb | None : assumed branch outcomes
         self.opaque_sites = []
@@ -748,6 +841,9 @@ class Interp:
                     label = o.label
                 elif isinstance(dv, tuple) and dv[0] == 'bool':
                     label = dv[1]
+                    prev = pth.decided(label)
+                    if prev is not None:
+                        decided = 1 if prev else 0
                 if decided is None and self.switch_hook is not None:
                     forced = self.switch_hook(fr, t, dv, pth)
                     if forced is not None:
@@ -1067,6 +1163,35 @@ class Interp:
                     out.append(val.payload)
                 fr.storev(dest, Agg(out, ('vec', 'Vec')))
                 return
+        if name == 'index_mut' and (res.startswith('std::array::<impl std::ops::IndexMut') or res.startswith('core::slice::index::<impl std::ops::IndexMut')) and len(args) == 2:
+            tgt = fr.ref_place_of(args[0])
+            rp = op_place(args[1])
+            ty = fr.body.local_ty(rp['l']) if rp is not None and not rp['p'] else ''
+            rng = fr.operand(args[1])
+            base = None
+            if isinstance(tgt, dict):
+                base = fr.root_of(tgt)
+            elif isinstance(tgt, tuple):
+                base = (tgt[1].root, list(tgt[1].proj))
+            if base is not None:
+                if ty.endswith('RangeFull') or ty.startswith('std::ops::RangeTo<'):
+                    fr.storev(dest, Ref(base[0], list(base[1])))
+                    return
+                if ty.startswith('std::ops::RangeFrom<') and isinstance(rng, Agg) and len(rng.items) == 1 and isinstance(rng.items[0], Int):
+                    fr.storev(dest, Ref(base[0], list(base[1]) + [['off', rng.items[0].v]]))
+                    return
+        if name == 'copy_from_slice' and res.startswith('core::slice::<impl [T]>::copy_from_slice'):
+            dv_ = fr.operand(args[0])
+            src = self.value_of_ref(fr, args[1])
+            if isinstance(src, Ref):
+                src = fr._project(fr.store.get(src.root, TOP), src.proj)
+            if isinstance(dv_, Ref) and isinstance(src, Agg):
+                cur = fr._project(fr.store.get(dv_.root, TOP), dv_.proj)
+                if isinstance(cur, Agg) and len(cur.items) >= len(src.items):
+                    # destination view may be a prefix (RangeTo) of a longer array: write element-wise
+                    for i_, it_ in enumerate(src.items):
+                        fr.store[dv_.root] = fr._update(fr.store.get(dv_.root), list(dv_.proj) + [['ci', i_, 0, False]], it_)
+                    return
         # ---- comparisons fork the path set
         if trait == 'std::cmp::PartialEq' and name in ('eq', 'ne') and len(args) == 2:
             a = self._as_lin(fr.deref_operand(args[0]))
@@ -1299,11 +1424,105 @@ class Interp:
             n = limbs_int(fr.deref_operand(op))
         return n
 
+    def _intern(self, v):
+        """Monomial standing for an abstract field value (interning multi-term sums)."""
+        if isinstance(v, Lin):
+            return v
+        if isinstance(v, ConstField):
+            return self._as_lin(v)
+        if isinstance(v, Sum):
+            sg = v.single()
+            if sg is not None:
+                return sg
+            for i, s_ in enumerate(self.interned):
+                if s_ == v:
+                    return Lin.atom('S#%d' % i)
+            self.interned.append(v)
+            return Lin.atom('S#%d' % (len(self.interned) - 1))
+        return None
+
+    def _sum_transfer(self, fr, t, c, pth):
+        name = c['name']
+        args = t['args']
+
+        def as_sum(v):
+            v = self._as_lin(v)
+            if isinstance(v, Lin):
+                return Sum.of(v)
+            if isinstance(v, Sum):
+                return v
+            if v == ('zero',):
+                return Sum()
+            return None
+        if name in ('add_assign', 'sub_assign'):
+            a = as_sum(fr.deref_operand(args[0]))
+            b = as_sum(fr.deref_operand(args[1]))
+            if a is None or b is None:
+                fr.store_through(args[0], TOP)
+            else:
+                fr.store_through(args[0], a.add(b, 1 if name == 'add_assign' else -1))
+            return True
+        if name == 'mul_assign':
+            a = self._as_lin(fr.deref_operand(args[0]))
+            b = self._as_lin(fr.deref_operand(args[1]))
+            if isinstance(a, Lin) and isinstance(b, Lin):
+                return False
+            def has_interned(l):
+                return any(x.startswith('S#') for x in l.t)
+            if isinstance(a, Sum) and isinstance(b, Lin):
+                if has_interned(b) and a.single() is None:
+                    fr.store_through(args[0], self._intern(a).add(b))
+                else:
+                    fr.store_through(args[0], a.mul_mono(b))
+                return True
+            if isinstance(a, Lin) and isinstance(b, Sum):
+                if has_interned(a) and b.single() is None:
+                    fr.store_through(args[0], a.add(self._intern(b)))
+                else:
+                    fr.store_through(args[0], b.mul_mono(a))
+                return True
+            if isinstance(a, Sum) and isinstance(b, Sum):
+                sa, sb = a.single(), b.single()
+                if sa is not None:
+                    fr.store_through(args[0], b.mul_mono(sa))
+                elif sb is not None:
+                    fr.store_through(args[0], a.mul_mono(sb))
+                else:
+                    fr.store_through(args[0], self._intern(a).add(self._intern(b)))
+                return True
+            fr.store_through(args[0], TOP)
+            return True
+        if name == 'square':
+            a = self._as_lin(fr.deref_operand(args[0]))
+            if isinstance(a, Sum):
+                m = self._intern(a)
+                fr.store_through(args[0], m.scale(2))
+                return True
+            return False
+        if name == 'negate':
+            a = self._as_lin(fr.deref_operand(args[0]))
+            if isinstance(a, Sum):
+                fr.store_through(args[0], a.scale(-1))
+                return True
+            return False
+        if name == 'double':
+            a = self._as_lin(fr.deref_operand(args[0]))
+            if isinstance(a, Sum):
+                fr.store_through(args[0], a.scale(2))
+                return True
+            if isinstance(a, Lin):
+                fr.store_through(args[0], Sum.of(a, 2))
+                return True
+            return False
+        return False
+
     def _field_transfer(self, fr, t, c, pth):
         name = c['name']
         args = t['args']
         dest = t['dest']
         where = t['span']
+        if self.sums and self._sum_transfer(fr, t, c, pth):
+            return True
         if name == 'square':
             v = fr.deref_operand(args[0])
             fr.store_through(args[0], v.scale(2) if isinstance(v, Lin) else TOP)
